@@ -261,3 +261,8 @@ MUTANTS = [
 ENGINES = ['model', 'dsf']
 TECHNIQUE = ('static analysis: derived-state freshness dataflow (abstract interpretation over public entry points) '
              '+ accessor-discipline and pairing rules on the AST')
+
+
+def sweep(overlay):
+    from ..dsf import dsf_sweep
+    return dsf_sweep(overlay, MUCHANNEL, 'C08')
